@@ -117,8 +117,15 @@ MigIssues ==
 
 CheckMig == LET iss == MigIssues IN IF iss = {} THEN TRUE ELSE Report("migration", iss)
 
+\* huge exact-identity forests, logged by fingerprint: both read-backs are the forest that was written
+CheckFp ==
+    /\ Clause("bin-trip", Ev.bin.read = "ok")
+    /\ Clause("xml-trip", Ev.xml.read = "ok")
+    /\ (Ev.bin.read = "ok" /\ Ev.xml.read = "ok") =>
+          Clause("cross", Ev.bin.fp_after = Ev.xml.fp_after /\ Ev.bin.fp_after = Ev.fp_before)
+
 Step == /\ l <= Len(Rec)
-        /\ (IF Ev.op = "mig_case" THEN CheckMig ELSE CheckCross) \in BOOLEAN
+        /\ (IF Ev.op = "mig_case" THEN CheckMig ELSE IF Ev.op = "cross_fp" THEN CheckFp ELSE CheckCross) \in BOOLEAN
         /\ l' = l + 1
 Finish == l = Len(Rec) + 1 /\ PrintT(<<"TRACE_DONE", Len(Rec)>>) /\ l' = l + 1
 TraceSpec == l = 1 /\ [][Step \/ Finish]_l
